@@ -482,6 +482,53 @@ fn op_construct(toks: &[Tok], prop: &str) -> Outcome {
     Outcome { result: w.0, oracle }
 }
 
+/// 44 CONSTRUCT_BIG: data (complete for the types) followed by n zero bytes, n up to beyond 2^32
+fn op_construct_big(toks: &[Tok], prop: &str) -> Outcome {
+    let mut r = R::new(toks);
+    let e = r.endian();
+    let n = r.n();
+    let tys: Vec<TypeInfo> = (0..n).map(|_| r.ti()).collect();
+    let data = r.b();
+    let zeros = r.n() as usize;
+    let mut w = W::new();
+    let mut oracle = vec![];
+    // zeroed pages are mapped lazily; only the front is ever touched
+    let mut big = vec![0u8; data.len() + zeros];
+    big[..data.len()].copy_from_slice(&data);
+    let res = guarded(|| construct_arguments(e, &tys, &big));
+    let small = guarded(|| construct_arguments(e, &tys, &data));
+    match &res {
+        None => {
+            w.n(4);
+            if prop == "C03" || prop == "C13" {
+                oracle.push(("no_panic".into(), format!("construct_arguments panicked on {} payload bytes", big.len())));
+            }
+        }
+        Some(Ok(args)) => {
+            w.n(0);
+            w.args(args)
+        }
+        Some(Err(_)) => w.n(1),
+    }
+    if prop == "C13" {
+        let same = match (&res, &small) {
+            (Some(Ok(a)), Some(Ok(b))) => {
+                let (mut wa, mut wb) = (W::new(), W::new());
+                wa.args(a);
+                wb.args(b);
+                wa.0 == wb.0
+            }
+            (Some(Err(_)), Some(Err(_))) => true,
+            (None, None) => true,
+            _ => false,
+        };
+        if !same {
+            oracle.push(("trailing_bytes_ignored".into(), format!("{} trailing zero bytes change the result", zeros)));
+        }
+    }
+    Outcome { result: w.0, oracle }
+}
+
 fn op_arg(toks: &[Tok], prop: &str) -> Outcome {
     let mut r = R::new(toks);
     let e = r.endian();
@@ -580,7 +627,30 @@ fn op_new(toks: &[Tok], prop: &str) -> Outcome {
         None => w.n(4),
     }
     if prop == "C15" {
-        crate::oracles::new_oracle(&c, &sh, &ts, &res, &mut oracle);
+        let all_wf = match &c.payload {
+            PayloadContent::Verbose(args) => args.iter().all(crate::genmsg::wf_arg),
+            _ => true,
+        };
+        if all_wf {
+            crate::oracles::new_oracle(&c, &sh, &ts, &res, &mut oracle);
+        } else if let Some(m) = &res {
+            // outside the well-formed domain only the bookkeeping clauses apply: the recorded payload length and
+            // the reported byte length are those of what the writer emits
+            if let Some((bytes, bl)) = guarded(|| (m.as_bytes(), m.byte_len())) {
+                let storage = if m.storage_header.is_some() { 16 } else { 0 };
+                let hdr = 4 + m.header.ecu_id.is_some() as usize * 4 + m.header.session_id.is_some() as usize * 4
+                    + m.header.timestamp.is_some() as usize * 4 + m.extended_header.is_some() as usize * 10;
+                let actual = bytes.len() - storage - hdr;
+                if actual <= 65535 - hdr {
+                    if m.header.payload_length as usize != actual {
+                        oracle.push(("payload_length".into(), format!("payload_length {} but the payload serialises to {} bytes", m.header.payload_length, actual)));
+                    }
+                    if bl as usize != bytes.len() - storage {
+                        oracle.push(("byte_len".into(), format!("byte_len {} but serialisation without storage header has {} bytes", bl, bytes.len() - storage)));
+                    }
+                }
+            }
+        }
     }
     Outcome { result: w.0, oracle }
 }
@@ -598,6 +668,7 @@ pub fn run_case(prop: &str, op: u32, toks: &[Tok]) -> Outcome {
         11 => op_skipsh(toks, prop),
         12 => op_fwd(toks, prop),
         13 => op_construct(toks, prop),
+        44 => op_construct_big(toks, prop),
         14 => op_arg(toks, prop),
         15 => op_new(toks, prop),
         _ => crate::ops2::run_case2(prop, op, toks),
